@@ -128,7 +128,7 @@ class MediaList(css_parser.util._NewListBase):
         # must be at least one value!
         if not atleastone:
             ok = False
-            self._wellformed = ok
+            # may raise: the list is changed afterwards only
             self._log.error('MediaQuery: No content.',
                             error=xml.dom.SyntaxErr)
 
